@@ -46,7 +46,8 @@ class C20(BaseCheck):
              'scales.core:ScalesUriParser.Parse')
   REQUIRED_ANCHORS = ANCHORS
   REQUIRED_CLASSES = ('name:plain', 'name:x_', 'name:x__', 'name:_x', 'name:__x__', 'uri:tcp', 'uri:zk',
-                      'uri:bad', 'result:error', 'result:later', 'inherited', 'function-name-differs', 'alias')
+                      'uri:bad', 'result:error', 'result:later', 'inherited', 'function-name-differs', 'alias',
+                      'uri:tcp-read-again')
   ASSUMPTIONS = ('public method = every user method that is not a dunder name (the property quantifies over names '
                  'with leading and trailing underscores, so _x and _x_ are judged like any other); names that collide with '
                  'another method\'s _async form or with the proxy base class are not generated',)
@@ -226,6 +227,13 @@ class C20(BaseCheck):
           got = [(s.service_endpoint.host, s.service_endpoint.port) for s in prov.GetServers()]
           ok = isinstance(prov, StaticServerSetProvider) and got == eps and \
             all(type(p) is int for _, p in got)
+          # the provider is read again by every balancer built over it (and on every re-open)
+          for _again in range(rng.randint(1, 3)):
+            classes.add('uri:tcp-read-again')
+            out.obligations += 1
+            again = [(s.service_endpoint.host, s.service_endpoint.port) for s in prov.GetServers()]
+            if ok and again != eps:
+              ok, got = False, ('read #%d of the parsed provider' % (_again + 2), again)
         except Exception as e:  # noqa
           got, ok = repr(e), False
         if not ok:
